@@ -405,6 +405,34 @@ func c19Helpers(c *Ctx) {
 func c19HostIPChanged(c *Ctx) {
 	w := c.w
 	rule := "membership-events"
+	// two host names that feed one rotation may resolve to the same address: the rotation is the union of what the names
+	// resolve to, each address once, and an address leaves it when the last name that resolves to it withdraws it. That
+	// takes an AddBackend that looks the address up before it appends (and counts who asked for it). The pinned
+	// AddBackend appends unconditionally and RemoveBackend drops the registration at the first withdrawal: recorded as an
+	// open finding (KNOWN_FINDINGS.txt), not repaired - reference counting touches the core of the pool.
+	if ab := c.fn(rule, "(*RoundRobinBackend).AddBackend"); ab != nil {
+		looked := false
+		var app ssa.Instruction
+		for _, st := range w.fieldStores(ab, "RoundRobinBackend.backends") {
+			app = st
+		}
+		if app != nil {
+			isKnown := func(a Atom) bool {
+				e, isE := a.X.(*ssa.Extract)
+				if a.Kind != "bool" || !isE || e.Index != 1 {
+					return false
+				}
+				lk, isLk := e.Tuple.(*ssa.Lookup)
+				if !isLk {
+					return false
+				}
+				_, isMap := isLoadOf(lk.X, "RoundRobinBackend.backendMap")
+				return isMap
+			}
+			looked = w.requires(ab, app, isKnown, false)
+		}
+		c.check(looked, rule, "AddBackend/same-address-twice", w.pos(ab.Pos()), "an address already in the rotation is not appended again", "AddBackend appends to the rotation without looking the address up: when two host names of one rotation resolve to the same address it is in the rotation twice (double share of the traffic) under one registration; the first name that withdraws it removes the registration (responses from it are no longer recognised) and one copy, the second withdrawal finds no registration and leaves the other copy in the rotation for good")
+	}
 	f := c.fn(rule, "(*RoundRobinBackend).hostIPChanged")
 	if f == nil {
 		return
